@@ -29,5 +29,16 @@ TraceNext ==
        \/ e.kind = "cmp" /\ \E r \in Results : e.ab = OpsOf(r) /\ e.ba = OpsOf(Swap(r))
        \/ e.kind = "agree" /\ e.ri = e.rf
        \/ e.kind = "modsign" /\ e.ok
+       \* integers far outside TLC's range, given as offsets from a common base B (|B| up to 2^63): two integers
+       \* B + da, B + db in any integer spelling (literal, text, padded, signed, zero-padded) compare as integers ...
+       \/ e.kind = "wincmp" /\ e.ab = OpsOf(CmpInt(e.da, e.db)) /\ e.ba = OpsOf(CmpInt(e.db, e.da))
+       \* ... and integer arithmetic on them is exact and stays integer: (B + da) + c, (B + da) - c, (B + da) - (B + db),
+       \* (B + da) % m with bm = B % m (remainder with the sign of the dividend)
+       \/ e.kind = "win" /\ e.isint /\
+            CASE e.op = "+"    -> e.off = e.da + e.c
+              [] e.op = "-"    -> e.off = e.da - e.c
+              [] e.op = "diff" -> e.val = e.da - e.db
+              [] e.op = "mod"  -> e.val = TMod(e.bm + e.da, e.c)
+              [] e.op = "neg"  -> e.off = -e.da
 TraceAccepted == TLCGet("stats").diameter - 1 = Len(Trace)
 =============================================================================
